@@ -99,14 +99,10 @@ structure Policy where
   unsignedPasses : Bool
   /-- MDQ: what `parse` stored stays in the source when the signature check then raises. -/
   storeFirst : Bool
-  /-- `do_entity_descriptor` computes the list `_res` of the descriptors of one kind that support
-      SAML 2.0 but never stores it: as soon as ONE descriptor of a kind supports SAML 2.0, ALL
-      descriptors of that kind stay in the entry. -/
-  keepSiblings : Bool
 deriving DecidableEq, Repr
 
-def Policy.code : Policy := ⟨true, true, true⟩
-def Policy.ideal : Policy := ⟨false, false, false⟩
+def Policy.code : Policy := ⟨true, true⟩
+def Policy.ideal : Policy := ⟨false, false⟩
 
 variable {α : Type} [DecidableEq α]
 
@@ -122,18 +118,11 @@ def expired (now : Int) (vu : Option Int) : Bool :=
 def saml2 (p2 : α) (r : Role α) : Bool :=
   decide (r.kind = .affiliation) || r.protocols.contains p2
 
-/-- Some descriptor of kind `k` of the entity names the SAML 2.0 protocol (`_res` non-empty). -/
-def kindSupported (p2 : α) (e : Ent α) (k : Kind) : Bool :=
-  e.roles.any (fun r => decide (r.kind = k) && r.protocols.contains p2)
-
-/-- A role descriptor survives the "verify support for SAML2" loop. -/
-def keepRole (pol : Policy) (p2 : α) (e : Ent α) (r : Role α) : Bool :=
-  decide (r.kind = .affiliation) ||
-    (if pol.keepSiblings then kindSupported p2 e r.kind else r.protocols.contains p2)
-
-/-- `to_dict` + protocol filter: `none` = no descriptor left (`flag == 0`). -/
-def prepEnt (pol : Policy) (p2 : α) (e : Ent α) : Option (Ent α) :=
-  let rs := e.roles.filter (keepRole pol p2 e)
+/-- `to_dict` + the "verify support for SAML2" loop: per kind only the descriptors that name the
+    SAML 2.0 protocol are kept (`_ent[descr] = _res`, since fix 096626db); `none` = no descriptor
+    left (`flag == 0`). -/
+def prepEnt (p2 : α) (e : Ent α) : Option (Ent α) :=
+  let rs := e.roles.filter (saml2 p2)
   if rs.isEmpty then none else some { e with roles := rs }
 
 /-- `InMemoryMetaData.entity`: insertion-ordered dictionary entityID -> descriptor. -/
@@ -144,10 +133,10 @@ def lookup (m : EntMap α) (id : α) : Option (Ent α) := (m.find? (fun p => dec
 def erase (m : EntMap α) (id : α) : EntMap α := m.filter (fun p => !decide (p.1 = id))
 
 /-- `do_entity_descriptor`. -/
-def doEntity (pol : Policy) (chk : Bool) (now : Int) (p2 : α) (m : EntMap α) (e : Ent α) : EntMap α :=
+def doEntity (chk : Bool) (now : Int) (p2 : α) (m : EntMap α) (e : Ent α) : EntMap α :=
   if chk && expired now e.validUntil then m
   else if has m e.id then m
-  else match prepEnt pol p2 e with
+  else match prepEnt p2 e with
     | none => m
     | some d => m ++ [(e.id, d)]
 
@@ -157,14 +146,13 @@ deriving DecidableEq, Repr
 
 /-- `InMemoryMetaData.parse` on a well-formed document, starting from the entities the source
     already holds (non-empty only for an MDQ source). -/
-def parseDoc (pol : Policy) (chk : Bool) (now : Int) (p2 : α) (m : EntMap α) (d : Doc α) :
-    Except LoadErr (EntMap α) :=
+def parseDoc (chk : Bool) (now : Int) (p2 : α) (m : EntMap α) (d : Doc α) : Except LoadErr (EntMap α) :=
   if d.group then
     if chk && expired now d.validUntil then .error .tooOld
-    else .ok (d.entities.foldl (doEntity pol chk now p2) m)
+    else .ok (d.entities.foldl (doEntity chk now p2) m)
   else
     match d.entities with
-    | e :: _ => .ok (doEntity pol chk now p2 m e)
+    | e :: _ => .ok (doEntity chk now p2 m e)
     | [] => .ok m
 
 inductive SrcKind where
@@ -223,7 +211,7 @@ def loadSource (pol : Policy) (p2 : α) (now : Int) (sp : SrcSpec α) : Except L
     | .unavailable => .error .unavailable
     | .malformed => .error .parse
     | .doc d =>
-      match parseDoc pol sp.chk now p2 [] d with
+      match parseDoc sp.chk now p2 [] d with
       | .error e => .error e
       | .ok m => if checkSig pol sp.kind (effCert sp.kind sp.cert) d.sig then .ok (mk m) else .error .signature
 
@@ -245,7 +233,7 @@ def mdxFetch (pol : Policy) (p2 : α) (now : Int) (resp : Fetch α) (s : Source 
   | .unavailable => (.keyErr, s)             -- status ≠ 200: KeyError
   | .malformed => (.raised, s)               -- SAMLError from parse
   | .doc d =>
-    match parseDoc pol s.chk now p2 s.entities d with
+    match parseDoc s.chk now p2 s.entities d with
     | .error _ => (.raised, s)
     | .ok m =>
       if checkSig pol .mdq s.cert d.sig then
